@@ -229,6 +229,13 @@ func checkGuards(r *Reporter, p *Prog, rule string, rows []GuardRow) {
 						if ro := rootObj(info, se.X); ro != nil && fresh[ro] {
 							return
 						}
+						exKey2 := fd.Name.Name
+						if recvT != "" {
+							exKey2 = recvT + "." + fd.Name.Name
+						}
+						if _, ex := row.Exempt[exKey2]; ex {
+							return
+						}
 						base, okp := pathOf(info, se.X)
 						if !okp {
 							a.bad = append(a.bad, fmt.Sprintf("%s: receiver of caller-holds helper is not an access path", p.posStr(x.Pos())))
